@@ -63,6 +63,14 @@ var c02Families = []c02Family{
 			g = append(g, 14)
 			return refcff.Assemble(&refcff.AsmSpec{Name: "Amp", CharStrings: [][]byte{{14}, g}, GlyphNames: []string{"A"}, Privates: []refcff.AsmPrivate{{LocalSubrs: subrs}}})
 		}, []int{1, 2, 3, 4, 6, 8}},
+	{"CFF: a well-formed Private DICT of 3k bytes (k repeated BlueFuzz entries; the last one counts)", "cff.Read",
+		func(k int) []byte {
+			var extra []byte
+			for i := 0; i < k; i++ {
+				extra = append(extra, refcff.DictEntry(1211, 1+i%3)...) // BlueFuzz
+			}
+			return refcff.Assemble(&refcff.AsmSpec{Name: "BigPriv", CharStrings: [][]byte{{14}, {14}}, GlyphNames: []string{"A"}, Privates: []refcff.AsmPrivate{{Extra: extra}}})
+		}, []int{4, 64, 340, 342, 1000, 20000}},
 	{"CFF: the Private operator declares a DICT of 1024*k*k bytes in a file of a few dozen bytes", "cff.Read",
 		func(k int) []byte {
 			return refcff.Assemble(&refcff.AsmSpec{Name: "Big", CharStrings: [][]byte{{14}, {14}}, GlyphNames: []string{"A"}, Privates: []refcff.AsmPrivate{{}}, PrivateSize: 1024 * k * k})
